@@ -171,6 +171,11 @@ pub mod iter {
         }
         #[doc(hidden)]
         fn run_slot(&mut self, slot: usize) -> Option<Self::Item>;
+        /// internal sources that only re-package already computed items are not scheduled again
+        #[doc(hidden)]
+        fn already_computed(&self) -> bool {
+            false
+        }
 
         fn map<F, R>(self, map_op: F) -> Map<Self, F>
         where
@@ -401,9 +406,13 @@ pub mod iter {
 
     /// runs every slot exactly once in the scheduler's order; results per slot in index order
     pub fn drive<P: ParallelIterator>(mut p: P) -> Driven<P::Item> {
-        sched::note_call();
         p.prepare();
         let n = p.slots();
+        if p.already_computed() {
+            let values = (0..n).map(|i| p.run_slot(i)).collect();
+            return Driven { values, order: (0..n).collect() };
+        }
+        sched::note_call();
         let mut order = sched::order(n);
         // per-segment state: the items of a segment run consecutively, in index order
         if (0..n).any(|i| p.segment_of(i).is_some()) {
@@ -460,6 +469,23 @@ pub mod iter {
         }
         fn run_slot(&mut self, slot: usize) -> Option<T> {
             self.items[slot].take()
+        }
+    }
+    /// results that were already produced by a scheduled drive (used when collecting into Result / Option)
+    pub struct Computed<T> {
+        items: Vec<Option<T>>,
+    }
+    impl<T: Send> ParallelIterator for Computed<T> {
+        type Item = T;
+        fn prepare(&mut self) {}
+        fn slots(&self) -> usize {
+            self.items.len()
+        }
+        fn run_slot(&mut self, slot: usize) -> Option<T> {
+            self.items[slot].take()
+        }
+        fn already_computed(&self) -> bool {
+            true
         }
     }
     impl<T: Send> IndexedParallelIterator for VecSource<T> {}
@@ -917,7 +943,7 @@ pub mod iter {
                     oks.push(x);
                 }
             }
-            Ok(C::from_par_iter(VecSource { items: oks.into_iter().map(Some).collect() }))
+            Ok(C::from_par_iter(Computed { items: oks.into_iter().map(Some).collect() }))
         }
     }
 }
